@@ -19,7 +19,8 @@ namespace BS.Render
 
 /-- the configuration of the re-parsing builder (generated from the live `HTMLParserTreeBuilder`) -/
 structure PCfg where
-  voidTags : List PStr                    -- `empty_element_tags`
+  voidAll : Bool                          -- `empty_element_tags is None`: every tag can be an empty-element tag
+  voidTags : List PStr                    -- `empty_element_tags` (when it is a set)
   preserveWs : List PStr                  -- `preserve_whitespace_tags`
   containers : List (PStr × SCls)         -- `string_containers`
   cdataList : List (PStr × List PStr)     -- `cdata_list_attributes` ("*" = [42] and tag names)
@@ -28,6 +29,9 @@ structure PCfg where
   cdataElems : List PStr                  -- `HTMLParser.CDATA_CONTENT_ELEMENTS`
   startendChecks : Bool                   -- `handle_startendtag` passes `check_already_closed=True` (4.13.0 does)
 deriving Repr
+
+/-- `TreeBuilder.can_be_empty_element(name)`: `True` when `empty_element_tags is None`, else membership -/
+def PCfg.isVoid (p : PCfg) (nm : PStr) : Bool := p.voidAll || p.voidTags.contains nm
 
 /-- tokenizer events, string events already routed through bs4's handlers -/
 inductive TEv where
@@ -231,7 +235,7 @@ def buildAttrs (p : PCfg) (nm : PStr) (attrs : List (PStr × Option PStr)) : Lis
 
 /-- a closed frame as a tree node: no prefix (html.parser passes none), `can_be_empty_element` from the builder -/
 def closeFrame (p : PCfg) (fr : Frame) : Node :=
-  .tag ⟨fr.name, none, fr.attrs, p.voidTags.contains fr.name, false⟩ fr.kids
+  .tag ⟨fr.name, none, fr.attrs, p.isVoid fr.name, false⟩ fr.kids
 
 /-- `_popToTag(name)`: pop up to and including the most recent open tag of that name; the `[document]` frame is
     never popped; `none` = no open tag has the name (`open_tag_counter`), nothing happens.
@@ -267,7 +271,7 @@ def step (p : PCfg) (st : BState) : TEv → BState
   | .start name attrs =>
     -- handle_starttag(name, attrs, handle_empty_element=True)
     let st := soupStart p name attrs st
-    if p.voidTags.contains name then
+    if p.isVoid name then
       -- `tag.is_empty_element`: the new tag has no contents and `builder.can_be_empty_element(name)`
       let st := adapterEnd p name false st
       { st with closed := st.closed ++ [name] }
@@ -322,7 +326,7 @@ def absorb1 (p : PCfg) (f : Fmt) (ctx : Ctx) : List PStr → Node → List Node 
     let nm := fullName i
     let ctx' := pushCtx p ctx nm
     let r := absorb p f ctx' [] ks
-    (txt p ctx b ++ [Node.tag ⟨nm, none, normAttrs p f nm i.attrs, p.voidTags.contains nm, false⟩
+    (txt p ctx b ++ [Node.tag ⟨nm, none, normAttrs p f nm i.attrs, p.isVoid nm, false⟩
       (r.1 ++ txt p ctx' r.2)], [])
 end
 
@@ -393,7 +397,7 @@ def representable (p : PCfg) (f : Fmt) : Node → Bool
   | .tag i kids =>
     !i.hidden
     && okTagName (fullName i)
-    && (!p.voidTags.contains (fullName i) || kids.isEmpty)                    -- a void element has no children
+    && (!p.isVoid (fullName i) || kids.isEmpty)                    -- a void element has no children
     && (f.cdataTags.contains i.name == p.cdataElems.contains (fullName i))    -- writer and reader agree on raw content
     && keysNodup (i.attrs.map (·.1)) && i.attrs.all (fun kv => okAttrName kv.1)
     && (if p.cdataElems.contains (fullName i) then rawKidsOK kids else representableL p f kids)
